@@ -681,11 +681,19 @@ func TestVerif_C16(t *testing.T) {
 	}()
 	if p := kit.ReplayPath(); p != "" {
 		var doc struct {
-			Ops      []c16Op `json:"ops"`
-			Original []c16Op `json:"original"`
+			Ops      []c16Op  `json:"ops"`
+			Original []c16Op  `json:"original"`
+			Wide     *c16Wide `json:"wide"`
+			WideOrig *c16Wide `json:"wide_original"`
 		}
 		if err := kit.LoadReplay(p, &doc); err != nil {
 			t.Fatal(err)
+		}
+		for _, w := range []*c16Wide{doc.Wide, doc.WideOrig} {
+			if w != nil {
+				x.oneWide(*w)
+				rec.Sample(w.String())
+			}
 		}
 		for _, ops := range [][]c16Op{doc.Ops, doc.Original} {
 			if len(ops) > 0 {
@@ -735,6 +743,8 @@ func TestVerif_C16(t *testing.T) {
 	for k := 0; k < kit.N(12000, 100000); k++ {
 		run(c16Random(rr, 8))
 	}
+	// statements with 1..64 parameters (c16_wide_test.go)
+	x.runWide()
 	rec.Set("histories", n)
 	if rec.CounterValue("harness_errors") > 0 {
 		rec.Inconclusive(fmt.Sprintf("%d harness errors, first: %s", rec.CounterValue("harness_errors"), x.fatal))
